@@ -141,9 +141,10 @@ func ruleR01a(c *Check) {
 }
 
 // R01b: every kind of dependency node contributes. Applied to each function
-// that iterates a node's dependencies and narrows them to *model.Target.
+// that narrows dependency nodes (values derived from the graph's in-edges, in the
+// function itself or handed to it by a caller) with a type test on model.BuildNode.
 func ruleR01b(c *Check, rule string) {
-	c.Rule(rule, "a function that walks a node's dependencies (graph in-edges) and narrows them with a type assertion on model.BuildNode must handle every first-party implementer of model.BuildNode (a dependency reached through an alias must not be dropped)", 2)
+	c.Rule(rule, "a function that narrows a node's dependencies (graph in-edges, directly or received from a caller that walks them) with a type assertion/switch on model.BuildNode handles every first-party implementer of model.BuildNode (a dependency reached through an alias must not be dropped); the key composer and the minimal-mode dependency loader obtain their dependencies through such a function", 2)
 	impls := buildNodeImplementers(c)
 	if len(impls) < 2 {
 		c.Unknown(rule, "anchor/model.BuildNode", "anchor-unresolved: expected at least two implementers of model.BuildNode", "-")
@@ -155,34 +156,61 @@ func ruleR01b(c *Check, rule string) {
 		return
 	}
 	inEdges := fk("dag.DirectedTargetGraph", "inEdges")
-	for _, fn := range c.P.Funcs {
-		if !(engine.InPackage(fn, "hashing") || engine.InPackage(fn, "dag") || engine.InPackage(fn, "execution")) {
-			continue
-		}
-		// dependency-derived values in fn
-		var srcs []Node
-		for _, s := range callsToFn(c, fn, getDeps) {
-			if v := s.Value(); v != nil {
-				srcs = append(srcs, v)
-			}
-		}
-		for _, b := range fn.Blocks {
-			for _, in := range b.Instrs {
-				if fa, ok := in.(*ssa.FieldAddr); ok && engine.FieldKeyOf(fa.X.Type(), fa.Field) == inEdges {
-					srcs = append(srcs, fa)
-				}
-			}
-		}
-		if len(srcs) == 0 {
-			continue
-		}
-		local := func(e *engine.Edge) bool {
+	// dependency-derived values per function (one level of call-argument propagation)
+	depVals := map[*ssa.Function][]Node{}
+	inScope := func(fn *ssa.Function) bool {
+		return engine.InPackage(fn, "hashing") || engine.InPackage(fn, "dag") || engine.InPackage(fn, "execution")
+	}
+	localFlow := func(fn *ssa.Function) engine.EdgeFilter {
+		return func(e *engine.Edge) bool {
 			if e.Via == nil || e.Via.Parent() != fn {
 				return false
 			}
 			return e.Kind == engine.EAssign || e.Kind == engine.ELoad
 		}
-		reach := c.G.Forward(srcs, local)
+	}
+	for _, fn := range c.P.Funcs {
+		if !inScope(fn) {
+			continue
+		}
+		for _, s := range callsToFn(c, fn, getDeps) {
+			if v := s.Value(); v != nil {
+				depVals[fn] = append(depVals[fn], v)
+			}
+		}
+		for _, b := range fn.Blocks {
+			for _, in := range b.Instrs {
+				if fa, ok := in.(*ssa.FieldAddr); ok && engine.FieldKeyOf(fa.X.Type(), fa.Field) == inEdges {
+					depVals[fn] = append(depVals[fn], fa)
+				}
+			}
+		}
+	}
+	for _, fn := range c.P.Funcs {
+		if len(depVals[fn]) == 0 {
+			continue
+		}
+		reach := c.G.Forward(depVals[fn], localFlow(fn))
+		for _, s := range engine.SitesIn(fn) {
+			for _, cal := range c.G.Callees[s] {
+				if !inScope(cal) || cal == fn {
+					continue
+				}
+				args := s.Common().Args
+				for i, a := range args {
+					if reach.Has(a) && i < len(cal.Params) && types.Identical(a.Type(), bn) {
+						depVals[cal] = append(depVals[cal], cal.Params[i])
+					}
+				}
+			}
+		}
+	}
+	var narrowers []*ssa.Function
+	for _, fn := range c.P.Funcs {
+		if len(depVals[fn]) == 0 || !inScope(fn) {
+			continue
+		}
+		reach := c.G.Forward(depVals[fn], localFlow(fn))
 		asserted := map[string]bool{}
 		var first *ssa.TypeAssert
 		for _, b := range fn.Blocks {
@@ -200,6 +228,7 @@ func ruleR01b(c *Check, rule string) {
 		if first == nil {
 			continue
 		}
+		narrowers = append(narrowers, fn)
 		var missing []string
 		for _, im := range impls {
 			if !asserted[im.String()] {
@@ -212,6 +241,22 @@ func ruleR01b(c *Check, rule string) {
 		} else {
 			c.Bad(rule, key, "dependencies of kind "+strings.Join(missing, ", ")+" are dropped by the type assertion: a dependency reached only through such a node contributes nothing here", c.P.InstrPos(first))
 		}
+	}
+	// the key composer and the dependency loader must get their dependencies through a narrower
+	// (or walk the raw list themselves and then be narrowers)
+	consumers := append([]*ssa.Function{}, writersOfField(c, changeHashKey)...)
+	if ldo := c.P.Func("execution", "Executor", "LoadDependencyOutputs"); ldo != nil {
+		consumers = append(consumers, ldo)
+	}
+	for _, cons := range consumers {
+		reach := c.G.ReachableFuncs([]*ssa.Function{cons}, func(f *ssa.Function) bool { return f != cons && !engine.InPackage(f, "dag") })
+		ok := false
+		for _, n := range narrowers {
+			if reach[n] {
+				ok = true
+			}
+		}
+		c.Require(ok, rule, "dependencies-through-narrower/"+c.P.FuncName(cons), "obtains its dependencies through a function that resolves every node kind", "does not obtain its dependencies through a function that resolves dependency nodes by kind: no dependency digests / outputs are taken into account", c.P.Pos(cons.Pos()))
 	}
 }
 
